@@ -518,7 +518,7 @@ def integrate_free():
     from brax import math
     sys = physsys.load(physsys.xml_free())
     sys2 = sys.replace(opt=sys.opt.replace(timestep=dt))
-    got = integrator._integrate_q_free(sys2, q, qd)
+    got = integrator._integrate_q_free(sys=sys2, q=q, qd=qd)
     # reference: MuJoCo mj_integratePos for a free joint, with the 1e-8 guard stated explicitly
     w = qd[3:6]
     wn = math.safe_norm(w) + 1e-8          # the same real helper (cut on both sides; its contract is C09/safe_norm/contract_*: the norm, 0 inside the 1e-8 cube)
